@@ -74,6 +74,9 @@ func runC20(c *c20Case) (v *vcommon.Violation, labels map[string]bool) {
 	keyOf := func(i int) string { return fmt.Sprintf("key-%04d", i) }
 	peakLive := 0
 	recycledSeen := false
+	// emptied tables stay allocated (recycled, reused by the next makeTable) until their idle timeout, so the
+	// table count is governed by the largest amount written between two compaction runs so far
+	maxRoundBytes := 0
 	for round := 0; round < c.Rounds; round++ {
 		roundBytes := 0
 		for j := 0; j < c.PerRound; j++ {
@@ -108,6 +111,9 @@ func runC20(c *c20Case) (v *vcommon.Violation, labels map[string]bool) {
 				}
 				live[k] = len(keyOf(k)) + len(val) + table.MetadataLength
 				roundBytes += live[k]
+				if roundBytes > maxRoundBytes {
+					maxRoundBytes = roundBytes
+				}
 			}
 			sum := 0
 			for _, n := range live {
@@ -163,7 +169,7 @@ func runC20(c *c20Case) (v *vcommon.Violation, labels map[string]bool) {
 		// than 0.6*S - e_max live bytes; during a round at most roundBytes/(S-e_max)+1 tables are opened.
 		den := int(0.6*float64(c.TableSize)) - emax
 		// plus the tables opened while compaction moves the live entries, and one each for rounding
-		maxTables := (peakLive+den-1)/den + (roundBytes+(c.TableSize-emax)-1)/(c.TableSize-emax) + (peakLive+(c.TableSize-emax)-1)/(c.TableSize-emax) + 4
+		maxTables := (peakLive+den-1)/den + (maxRoundBytes+(c.TableSize-emax)-1)/(c.TableSize-emax) + (peakLive+(c.TableSize-emax)-1)/(c.TableSize-emax) + 4
 		if st.NumTables > maxTables {
 			return fail("unbounded-tables", "round %d: %d tables allocated (%d bytes) for %d live bytes (peak %d); bound %d tables", round, st.NumTables, st.Allocated, want, peakLive, maxTables), labels
 		}
